@@ -40,6 +40,7 @@ def run(prog, rep, tier):
     f = need(prog, Q)
     S = Sym(prog, inline=inline_helpers(prog, "sempler.generators"))
     summ, _ = run_function(S, f)
+    message_safe(rep, S, f, "GUARD.message")
     raises = [r for r in S.select("raise", qname=Q) if r.exctype == "ValueError"]
     draws = [c for c in S.select("call", qname=Q) if c.callkind == "method" and c.target == ".choice"]
     found = {}
